@@ -192,6 +192,17 @@ func c11() []*Ob {
 						}
 					}
 				}
+				// index side: a case *predicate* never decides whether the case *mapping* runs — unicode.IsUpper covers
+				// category Lu only, while ToLower also changes title-case letters and letter-like numerals
+				for _, fn := range c.P.FuncsInPkg("tokenizer") {
+					maps := c.P.HasCall(fn, Callee("unicode.ToLower", "unicode.To", "bytes.ToLower", "bytes.Map", "strings.ToLower"))
+					if !maps {
+						continue
+					}
+					for _, call := range CallsIn(fn, Callee("unicode.IsUpper", "unicode.IsLower", "unicode.IsTitle")) {
+						c.Violation("pair:case:predicate-gates-mapping:"+FuncName(fn), call.Pos(), "%s asks %s before lower-casing: runes that ToLower changes but the predicate does not cover (title-case digraphs, roman numerals, circled capitals) stay as they are in the index while the query side lower-cases them", FuncName(fn), CallName(call))
+					}
+				}
 				// index side: every value token of the keyword and path tokenizers goes through the lower-casing helper
 				for _, name := range []string{"(*tokenizer.KeywordTokenizer).Tokenize", "(*tokenizer.PathTokenizer).Tokenize"} {
 					fn := c.Fn(name)
